@@ -252,9 +252,22 @@ def r5(ck, F):
                 if hr and all(x.startswith("contains_key(") and "by_id" in x and x.endswith(", arg2)") for x in hr):
                     pred.append("by_id contains the span id")
         pred = sorted(set(pred))
+        # any OTHER condition on the push (or the pop) that the other side does not have unbalances the stack: e.g. skipping
+        # the push for an unmatched (OFF) span while still popping for it makes an inner exit pop the outer span's entry
+        extra = []
+        for t, v in g:
+            if "by_id" in t or t.startswith(("cares_about_span(", "discr(get(", "discr(read(", "is_ok(", "discr(branch(")):
+                continue
+            if t.startswith("discr(") and ("read(" in t or "get(" in t or "lock" in t):
+                continue        # lock-poisoning plumbing of try_lock!
+            extra.append((t[:70], v))
+        pred = pred + (["EXTRA %s" % (extra,)] if extra else [])
         tabs[m] = pred
-        if pred:
+        if pred and not extra:
             ck.ok("C11.R5", "EnvFilter::%s: %s only for spans with a stored matcher" % (m, act), fn=b.path, detail=pred)
+        elif extra:
+            ck.bad("C11.R5", "EnvFilter::%s: %s exactly for spans with a stored matcher" % (m, act), where(b.raw["sp"]),
+                   "the %s is additionally conditioned on %s: enter and exit no longer push/pop for the same spans, so the per-thread scope stack gets out of step" % (act, extra), fn=b.path)
         else:
             ck.bad("C11.R5", "EnvFilter::%s: %s only for spans with a stored matcher" % (m, act), where(b.raw["sp"]), "guards %s" % sorted(g), fn=b.path)
     if len(tabs) == 2:
